@@ -9,7 +9,7 @@
 //	c, err := rtspc.DialWS(wsURL, timeout, httpHeader)       ws://host/streams/<path>, sub-protocol "rtsp"
 //	c.Timeout                                               bound of every later wait (a miss returns ErrTimeout;
 //	                                                        the connection stays usable, nothing is lost)
-//	c.Close()
+//	c.Close()  c.CloseWrite() (TCP half-close)  c.Abort() (TCP reset, no TIME_WAIT)
 //
 //	raw := c.Build(method, url, headers, body)   next CSeq, Session echo, Content-Length; headers may
 //	                                             override "CSeq" / "Session" (value rtspc.Omit leaves a header out)
@@ -389,6 +389,17 @@ func (c *Client) Close() error {
 		return c.ws.Close()
 	}
 	return c.conn.Close()
+}
+
+// Abort closes a TCP connection with a reset (SO_LINGER 0): the peer sees
+// ECONNRESET instead of EOF and the local port does not linger in TIME_WAIT.
+// On ws it is Close.
+func (c *Client) Abort() error {
+	if tc, ok := c.conn.(*net.TCPConn); ok {
+		tc.SetLinger(0)
+		return tc.Close()
+	}
+	return c.Close()
 }
 
 // CloseWrite half-closes a TCP connection (no-op on ws).
